@@ -350,6 +350,19 @@ def enc_dec(sx, kind):
     for k in sorted(fp):
         sx.check(same(sx, fp[k], fq[k]), "field-differs:%s.%s" % (kind, k))
     sx.reach("roundtrip:" + kind)
+    if kind == "AGF" and len(p) > 2:
+        # PDU objects are mutable (the link controller itself sets miu, rw,
+        # ns, nr after construction): the reported length must follow
+        for who, agf in (("built", p), ("decoded", q)):
+            first = [x for x in agf][0]
+            if hasattr(first, "data"):
+                first.data = sx.bytes("newdata." + who, 40 if who == "built" else 0)
+            elif hasattr(first, "miu"):
+                first.miu, first.rw = 2175, 0
+            else:
+                continue
+            sx.check(len(agf) == len(agf.encode()), "len-mismatch-after-member-changed:" + who)
+            sx.reach("agf_member_changed")
     return kind
 
 
@@ -409,7 +422,7 @@ def partitions(tier):
     return parts
 
 
-MUST_REACH = ["decode_error", "decoded", "agf_decoded", "agf_rejected"] + \
+MUST_REACH = ["decode_error", "decoded", "agf_decoded", "agf_rejected", "agf_member_changed"] + \
     ["roundtrip:" + k for k in KINDS]
 BOUNDS = {
     "quick": "encode->decode: all 14 PDU classes, every field symbolic over its full valid range, payload/name lengths from {0,1,2,3,4,9,64,254,255}; decode->encode->decode: every byte string of length 0..6 (16 type nibbles x lengths); aggregates of 2-3 sub-PDUs of 2..5 symbolic bytes; encoded aggregates of 0..2 sub-PDUs incl. UI sub-PDUs of 127/128/191/192/1152 octets (length field resembling a header)",
